@@ -1111,8 +1111,8 @@ def run(ctx):
         'previously computed keys lie inside the join (CacheInsideJoin); previously computed values are never None (so if_none has nothing '
         'to act on); "an expiry date in the past" is read on dates: up to yesterday 23:59:59 is past, today 00:00:00 .. 23:59:59 is not '
         '(random expiries include both boundaries; an observation is made again when midnight passes during it)',
-        'named deviation RenameLeavesCopy: a call with renames = {parameter: column} leaves a copy of that column under the parameter\'s name '
-        'in the caller\'s table (written anew by every such call, so never read stale); any other change of a caller-owned table, scalar, '
+        'a call with renames = {parameter: column} used to leave a copy of that column under the parameter\'s name in the caller\'s table '
+        '(repaired in /repo 2b8c4b2; the deviation RenameLeavesCopy is no longer admitted); any change of a caller-owned table, scalar, '
         'expiry table, on / renames object or earlier result is argument_changed',
         'named deviation DefaultsGainCacheKeys: the caller\'s defaults dict comes back with data = None and expiry = None added',
         'named deviation IncludedExpiry: with include_inputs the joined expiry column comes along; its cells are not looked at',
